@@ -22,16 +22,16 @@ PROPS = {
     "C01": P("exploration",
              "seeded plans: CREATE one instance (rs_vand over all 496 shapes biased to k+m=32/k=1/m=1, the 38 flat-XOR tables, isa_l_* through the stub), "
              "PUT random objects (lengths 0,1,k*w/8+-1, multiples, <=64KiB/1MiB), then GETs whose delivery loses a set within tolerance and is duplicated, permuted, surplus, unaligned; force flag random",
-             (24000, 40), (600000, 600), [ISAL_ASSUME],
+             (60000, 40), (600000, 600), [ISAL_ASSUME],
              expect_probes=["get.within-tolerance", "create.ok.liberasurecode_rs_vand", "create.ok.flat_xor_hd", "create.ok.isa_l_rs_vand", "create.ok.isa_l_rs_cauchy"]),
     "C02": P("exploration",
              "seeded plans: PUT then GET/REPAIR from arbitrary sub-multisets of the pristine stripe, concentrated on tolerance+1..m+1 (the band the front end lets through), too few fragments, duplicates; "
              "thorough additionally sweeps all 2^n subsets of eleven small codes by run index",
-             (24000, 40), (600000, 600), [ISAL_ASSUME],
+             (60000, 40), (600000, 600), [ISAL_ASSUME],
              expect_probes=["get.beyond-tolerance", "repair.beyond-tolerance", "get.within-tolerance"]),
     "C03": P("exploration",
              "seeded plans as C01, judged on REPAIR: destination lost (must equal the fragment encode produced, all bytes), destination delivered (returned unchanged), destination out of range (refused)",
-             (24000, 40), (600000, 600), [ISAL_ASSUME],
+             (60000, 40), (600000, 600), [ISAL_ASSUME],
              expect_probes=["repair.dest-missing", "repair.dest-available", "repair.dest-out-of-range.refused"]),
     "C05": P("fault_enumeration",
              "enumeration by run index of the 24191 (table, erasure set |E|<hd) pairs of the 38 flat-XOR tables through a seed-keyed permutation, each pair on both kernel flavours (run indexes 2j, 2j+1), after a stratified head touching every table and every erasure size; "
@@ -43,65 +43,65 @@ PROPS = {
     "C06": P("exploration",
              "seeded plans: one instance (rs_vand / isa_l / each flat-XOR table by run index), 8-30 fragments_needed queries with disjoint (rebuild, unreachable) lists within and beyond tolerance in random order, "
              "input lists right-aligned against a guard page, output pre-poisoned; half the answers are confirmed by reconstructing from the answer alone",
-             (12000, 40), (300000, 600), [ISAL_ASSUME],
+             (30000, 40), (300000, 600), [ISAL_ASSUME],
              expect_probes=["plan.within", "plan.beyond", "plan.confirmed"]),
     "C09": P("fault_enumeration",
              "seeded plans: stored fragment headers damaged by single-bit flips (bit = run index mod 640: all 640 swept), byte overwrites, bursts, torn prefixes, version/magic rewrites with and without re-sealing, "
              "legacy-CRC seal, foreign-endian rewrite; judged through get_fragment_metadata, decode and reconstruct against the reference acceptance predicate",
-             (16000, 40), (400000, 600), [],
+             (40000, 40), (400000, 600), [],
              expect_probes=["scrub.ref-accept", "scrub.ref-reject", "c09.consume.refused"],
              cells_total={"bit": 640}),
     "C10": P("exploration",
              "seeded plans with ct=CRC32: environment switch set to one of 10 values before PUT/REPAIR and flipped between operations; payload bit flips (every bit of short payloads by run index), bursts, byte edits, torn and stale payloads; "
              "stored CRCs compared with bitwise standard / historical CRC models, mismatch flag compared with the reference",
-             (16000, 40), (400000, 600), [],
+             (40000, 40), (400000, 600), [],
              expect_probes=["scrub.mismatch", "scrub.match"]),
     "C11": P("exploration",
              "seeded plans: each scrubbed fragment (pristine, payload-damaged or with re-sealed fields) is compared with its opposite-endian twin built by the simulator (fields and both CRC values byte-swapped, metadata CRC computed over the swapped image)",
-             (12000, 30), (300000, 400), ["big-endian hosts are modelled by byte-swapped fragments, not by running on one"],
+             (30000, 30), (300000, 400), ["big-endian hosts are modelled by byte-swapped fragments, not by running on one"],
              expect_probes=["twin.compared"]),
     "C12": P("exploration",
              "seeded plans: 2-4 live instances of different backend/shape, every SCRUB reads a fragment of any writer through any reader with one field edited and re-sealed (idx around k+m and at 2^31/2^32 edges, backend id, backend/library version +-1, mismatch flag), "
              "payload/header damage, endian rewrite or misdirection; verify_stripe_metadata over random sub-lists",
-             (12000, 40), (300000, 600), [ISAL_ASSUME],
+             (30000, 40), (300000, 600), [ISAL_ASSUME],
              expect_probes=["scrub.ref-invalid", "scrub.ref-valid", "vsm.ref-bad", "vsm.ref-good"]),
     "C19": P("exploration",
              "seeded plans on isa_l_rs_vand / isa_l_rs_cauchy over all k+m<=32 through the clean-room libisal: round trips, reconstructs, fragments_needed; stub knobs (input-clobbering inversion, table layout) and injected inversion failures vary per run",
-             (16000, 40), (400000, 600), [ISAL_ASSUME],
+             (40000, 40), (400000, 600), [ISAL_ASSUME],
              expect_probes=["get.within-tolerance", "repair.dest-missing", "plan.within"]),
     "C20": P("exploration",
              "seeded plans with ct=CRC32 and force_metadata_checks=1: survivor set S, damaged subset B (payload flips/bursts/torn/stale, re-sealed foreign fields, misdirected fragments), with and without all data fragments delivered; "
              "safety and availability judged separately, only when every delivered fragment is pristine or invalid under the reference",
-             (16000, 40), (400000, 600), [ISAL_ASSUME],
+             (40000, 40), (400000, 600), [ISAL_ASSUME],
              expect_probes=["c20.judged"]),
     "C13": P("fault_enumeration",
              "seeded histories: every third run walks a box of configurations around the accepted region (9 backend ids + invalid ids, k,m in -1..33 biased to the edges, hd 0..7, w in {0,8,16,32,7}), each accepted instance is driven through a full "
              "size-query/encode/decode/reconstruct/destroy cycle; the other runs issue malformed calls inside a live history, the first 14 of each run enumerating by run index the finite grid "
              "(15 entry points x {live,dead,never-issued descriptor} x NULL/boundary masks x 16 variants = 5232 calls), valid traffic interleaved",
-             (9000, 40), (200000, 600), [ISAL_ASSUME],
+             (20000, 40), (200000, 600), [ISAL_ASSUME],
              expect_probes=["badcall.refused.invalid-argument", "badcall.refused.dead-descriptor", "badcall.refused.unknown-descriptor", "create.refused", "cycle.done.liberasurecode_rs_vand", "cycle.done.flat_xor_hd", "cycle.done.null"],
              cells_total={"call": 5232}),
     "C14": P("exploration",
              "seeded histories over 6 slots (length 10-60, thorough to 200): creates of every available backend incl. null, failed creates (unsupported shape, unavailable backend, injected init failure), destroys in any order, "
              "destroys/uses of dead and never-issued descriptors against every entry point, data-path operations and canaries on live instances, descriptor counter preset just below INT_MAX with live descriptors above the wrap point; "
              "registry set model + canary digests computed in fresh-process state",
-             (8000, 40), (200000, 600), [ISAL_ASSUME, "next_backend_desc is bound weakly; if a refactor hides it the wrap scenario is reported as unreached"],
+             (16000, 40), (200000, 600), [ISAL_ASSUME, "next_backend_desc is bound weakly; if a refactor hides it the wrap scenario is reported as unreached"],
              expect_probes=["canary.match", "badcall.refused.dead-descriptor"],
              extra_flavours={"quick": {"plain": (1500, 15)}, "thorough": {"plain": (20000, 120)}}),
     "C15": P("exploration",
              "seeded histories: three instances, 8-40 mixed operations (thorough to 120) with every input buffer read-only between two guard pages (right-aligned or ASan-poisoned slack), canaries (fixed configuration+data re-encoded and compared with the digest taken in fresh-process state) after failed calls, backend failures, instance churn and environment flips",
-             (8000, 40), (200000, 600), [ISAL_ASSUME, "a second pass runs the same plans on the un-sanitized -O2 build, where the allocator recycles dirty chunks (ASan fills fresh allocations with a constant)"],
+             (16000, 40), (200000, 600), [ISAL_ASSUME, "a second pass runs the same plans on the un-sanitized -O2 build, where the allocator recycles dirty chunks (ASan fills fresh allocations with a constant)"],
              expect_probes=["canary.match"],
              extra_flavours={"quick": {"plain": (4000, 15)}, "thorough": {"plain": (100000, 200)}}),
     "C16": P("exploration",
              "seeded histories of 20-80 operations (thorough to 300) over four slots mixing valid calls with their cleanups, arbitrary (insufficient, beyond-tolerance, damaged) fragment sets, malformed calls, unsupported shapes, backend and dependency failures; "
              "ownership accounting of every block allocated from library call sites: zero net after each call pair / failed call, zero at quiescence after destroying all instances; ASan for double free and use-after-free",
-             (5000, 45), (120000, 600), [ISAL_ASSUME, "allocation failure is not injected (no property quantifies over it)"],
+             (10000, 45), (120000, 600), [ISAL_ASSUME, "allocation failure is not injected (no property quantifies over it)"],
              expect_probes=[]),
     "C17": P("fault_enumeration",
              "even run indexes enumerate a scripted workload (create, 3 encode, 4 decode with a data fragment lost, 3 reconstruct, 3 fragments_needed, destroy; 14 fail positions x 2 modes [fail instead of / after the real work] x 5 backends = 140 cases), "
              "the failed call is then repeated with the fault off and must succeed; odd run indexes attach failures at random; ISA-L inversion failures come from the stub; a sibling instance must stay unaffected",
-             (6000, 30), (150000, 400), [ISAL_ASSUME],
+             (12000, 30), (150000, 400), [ISAL_ASSUME],
              expect_probes=[], cells_total={"fail": 140}),
     "C18": P("exploration",
              "seeded thread plans: 2-4 tasks (thorough to 16) each with 3-8 operations, either through one shared descriptor (decode/reconstruct/query/encode), or creating, using and destroying their own instances (first-ever and subsequent creates, mixed backends, RS instances sharing GF tables), or both; "
